@@ -127,6 +127,9 @@ def run(case):
         # solver answers within tolerance: every value read from the solver shifted by -/+ 5e-10 (int weights must be rounded, not truncated)
         cfgs.append(("int,noise-", {"weight_type": "int", "optimization_options": ({} if cyc else {"optimize_with_greedy": False})}, None, "edge", []))
         cfgs.append(("int,noise+", {"weight_type": "int", "optimization_options": ({} if cyc else {"optimize_with_greedy": False})}, None, "edge", []))
+    if not fdata:
+        # integral flow values stored as floats (what read_graph produces) with integer weights
+        cfgs.append(("int,float_valued_data", {"weight_type": "int"}, dict(inst, arcs=[[a[0], a[1], float(a[2])] for a in inst["arcs"]]), "edge", []))
     cfgs.append(("int,solve_twice", {"weight_type": "int", "optimization_options": ({} if cyc else {"optimize_with_greedy": False})}, None, "edge", []))
     for name, kw, inst2, origin, ignored in cfgs:
         use = inst2 or inst
